@@ -242,6 +242,8 @@ def guards(astdir):
                     walk(c)
             walk(d)
             for lb in found:
+                if lb is None:
+                    raise Unsupported('wait without a predicate in %s::%s' % (cls, nm))
                 sh = shape(lb)
                 # CompoundStmt [ ReturnStmt [ expr ] ]
                 if not (len(sh) == 2 and sh[1][0][0] == 'ReturnStmt' and len(sh[1]) == 2):
